@@ -174,6 +174,21 @@ def main():
     defs.append("/-- serialisation order of the connect request: `src/tracker/connect.rs` -/\ndef connectFieldOrder : List String := [" + ", ".join(json.dumps(x) for x in co) + "]")
     defs.append("/-- serialisation order of the announce request: `src/tracker/announce.rs` -/\ndef announceFieldOrder : List String := [" + ", ".join(json.dumps(x) for x in ao) + "]")
 
+    # ---- C19 completion file names
+    src = read(repo, "src/shell.rs")
+    m = re.search(r"fn\s+completion_script_filename\(self\)\s*->\s*&'static\s+str\s*\{\s*match\s+self\s*\{(.*?)\}", src, flags=re.S)
+    table = re.findall(r"Self::([A-Za-z]+)\s*=>\s*\"([^\"]*)\"", m.group(1)) if m else []
+    if table:
+        status["extracted"].append("completionFileNames")
+    else:
+        status["fallback"].append("completionFileNames")
+        table = [("Bash", "imdl.bash"), ("Fish", "imdl.fish"), ("Zsh", "_imdl"), ("Powershell", "_imdl.ps1"), ("Elvish", "imdl.elvish")]
+    defs.append("/-- completion script file names (shell variant, file name): `src/shell.rs` -/\ndef completionFileNames : List (String × String) := [" + ", ".join(f"({json.dumps(a.lower())}, {json.dumps(b)})" for a, b in table) + "]")
+    m = re.search(r"enum\s+Shell\s*\{(.*?)\}", src, flags=re.S)
+    shells = [x.lower() for x in re.findall(r"\b([A-Z][a-z]+)\b", m.group(1))] if m else ["zsh", "bash", "fish", "powershell", "elvish"]
+    (status["extracted"] if m else status["fallback"]).append("shellNames")
+    defs.append("/-- shells in `Shell::iter()` order: `src/shell.rs` -/\ndef shellNames : List String := [" + ", ".join(json.dumps(x) for x in shells) + "]")
+
     body = "/-! GENERATED by tools/gen_consts.py from /repo sources on every check run. Do not edit. -/\nnamespace Imdlv.Consts\n\n" + "\n\n".join(defs) + "\n\nend Imdlv.Consts\n"
     old = None
     try:
